@@ -145,18 +145,81 @@ package types
 //@   abstract
 //@ func (*Transaction).ID
 //@   abstract
+//@   hash-family id
+//@   prop C12
+//@   preimage covers txn.SiacoinInputs
+//@   preimage covers txn.SiacoinOutputs
+//@   preimage covers txn.FileContracts
+//@   preimage covers txn.FileContractRevisions
+//@   preimage covers txn.StorageProofs
+//@   preimage covers txn.SiafundInputs
+//@   preimage covers txn.SiafundOutputs
+//@   preimage covers txn.MinerFees
+//@   preimage covers txn.ArbitraryData
+//@   preimage excludes txn.Signatures
 //@ func (*Transaction).FullHash
 //@   abstract
+//@   prop C12
+//@   preimage covers txn.SiacoinInputs
+//@   preimage covers txn.SiacoinOutputs
+//@   preimage covers txn.FileContracts
+//@   preimage covers txn.FileContractRevisions
+//@   preimage covers txn.StorageProofs
+//@   preimage covers txn.SiafundInputs
+//@   preimage covers txn.SiafundOutputs
+//@   preimage covers txn.MinerFees
+//@   preimage covers txn.ArbitraryData
+//@   preimage covers txn.Signatures
 //@ func (*Transaction).SiacoinOutputID
 //@   abstract
+//@   hash-family id
+//@   prop C12
+//@   preimage covers i
+//@   preimage covers txn.SiacoinInputs
+//@   preimage covers txn.SiacoinOutputs
+//@   preimage covers txn.FileContracts
+//@   preimage covers txn.FileContractRevisions
+//@   preimage covers txn.StorageProofs
+//@   preimage covers txn.SiafundInputs
+//@   preimage covers txn.SiafundOutputs
+//@   preimage covers txn.MinerFees
+//@   preimage covers txn.ArbitraryData
+//@   preimage excludes txn.Signatures
 //@ func (*Transaction).SiafundOutputID
 //@   abstract
+//@   hash-family id
+//@   prop C12
+//@   preimage covers i
+//@   preimage covers txn.SiacoinInputs
+//@   preimage covers txn.SiacoinOutputs
+//@   preimage covers txn.FileContracts
+//@   preimage covers txn.FileContractRevisions
+//@   preimage covers txn.StorageProofs
+//@   preimage covers txn.SiafundInputs
+//@   preimage covers txn.SiafundOutputs
+//@   preimage covers txn.MinerFees
+//@   preimage covers txn.ArbitraryData
+//@   preimage excludes txn.Signatures
 //@ func (*Transaction).SiafundClaimOutputID
 //@   abstract
 //@ func (*Transaction).FileContractID
 //@   abstract
+//@   hash-family id
+//@   prop C12
+//@   preimage covers i
+//@   preimage covers txn.SiacoinInputs
+//@   preimage covers txn.SiacoinOutputs
+//@   preimage covers txn.FileContracts
+//@   preimage covers txn.FileContractRevisions
+//@   preimage covers txn.StorageProofs
+//@   preimage covers txn.SiafundInputs
+//@   preimage covers txn.SiafundOutputs
+//@   preimage covers txn.MinerFees
+//@   preimage covers txn.ArbitraryData
+//@   preimage excludes txn.Signatures
 //@ func (*V2Transaction).ID
 //@   abstract
+//@   hash-family id
 //@   prop C12 C03
 //@   ghost k int
 //@   requires @resolutions-non-nil forall j in 0..len(txn.FileContractResolutions) :: !isnil(txn.FileContractResolutions[j].Resolution)
@@ -207,36 +270,88 @@ package types
 //@   preimage excludes asa(txn.FileContractResolutions[k].Resolution, V2StorageProof).ProofIndex.StateElement.MerkleProof when 0 <= k && k < len(txn.FileContractResolutions)
 //@ func (*V2Transaction).FullHash
 //@   abstract
+//@   prop C12
+//@   requires @resolutions-non-nil forall j in 0..len(txn.FileContractResolutions) :: !isnil(txn.FileContractResolutions[j].Resolution)
 //@ func (*V2Transaction).SiacoinOutputID
 //@   abstract
+//@   hash-family id
 //@   prop C12
 //@   preimage prefix "sia/id/siacoinoutput|"
 //@   preimage covers i
 //@   preimage covers txid
 //@ func (*V2Transaction).SiafundOutputID
 //@   abstract
+//@   hash-family id
+//@   prop C12
+//@   preimage prefix "sia/id/siafundoutput|"
+//@   preimage covers i
+//@   preimage covers txid
 //@ func (*V2Transaction).V2FileContractID
 //@   abstract
+//@   hash-family id
+//@   prop C12
+//@   preimage prefix "sia/id/filecontract|"
+//@   preimage covers i
+//@   preimage covers txid
 //@ func (*V2Transaction).AttestationID
 //@   abstract
+//@   hash-family id
+//@   prop C12
+//@   preimage prefix "sia/id/attestation|"
+//@   preimage covers i
+//@   preimage covers txid
 //@ func (BlockID).MinerOutputID
 //@   abstract
+//@   hash-family id
+//@   prop C12
+//@   preimage covers bid
+//@   preimage covers i
 //@ func (BlockID).FoundationOutputID
 //@   abstract
+//@   hash-family id
+//@   prop C12
+//@   preimage covers bid
 //@ func (SiafundOutputID).ClaimOutputID
 //@   abstract
+//@   hash-family id
+//@   prop C12
+//@   preimage covers sfoid
 //@ func (SiafundOutputID).V2ClaimOutputID
 //@   abstract
+//@   hash-family id
+//@   prop C12
+//@   preimage prefix "sia/id/v2siacoinclaimoutput|"
+//@   preimage covers sfoid
 //@ func (FileContractID).ValidOutputID
 //@   abstract
+//@   hash-family id
+//@   prop C12
+//@   preimage covers fcid
+//@   preimage covers i
 //@ func (FileContractID).MissedOutputID
 //@   abstract
+//@   hash-family id
+//@   prop C12
+//@   preimage covers fcid
+//@   preimage covers i
 //@ func (FileContractID).V2RenterOutputID
 //@   abstract
+//@   hash-family id
+//@   prop C12
+//@   preimage prefix "sia/id/v2filecontractoutput|"
+//@   preimage covers fcid
 //@ func (FileContractID).V2HostOutputID
 //@   abstract
+//@   hash-family id
+//@   prop C12
+//@   preimage prefix "sia/id/v2filecontractoutput|"
+//@   preimage covers fcid
 //@ func (FileContractID).V2RenewalID
 //@   abstract
+//@   hash-family id
+//@   prop C12
+//@   preimage prefix "sia/id/v2filecontractrenewal|"
+//@   preimage covers fcid
 //@ func (*Block).ID
 //@   abstract
 
